@@ -1251,16 +1251,39 @@ func c15InprocBig(r *h.Result, rng *h.Rng, env *c15Env, sizes []int, consts []in
 			return err
 		}
 	}
+	// bursts: whole reader batches of one stream, the stream re-appearing after another one (limited requests: one
+	// object per stream must hold)
+	for _, burst := range []int{99, 100, 101, 150, 200} {
+		for _, ns := range []int{2, 3} {
+			n := 3*burst + 7
+			rows := make([]c15Entry, 0, n)
+			for i := 0; i < n; i++ {
+				rows = append(rows, c15InprocRowB(i, ns, burst, []byte("m"+strconv.Itoa(i))))
+			}
+			r.Count("sizes:inproc-bursts")
+			if err := c15InprocCaseB(r, env, rows, ns, 1000000, consts, burst); err != nil {
+				return err
+			}
+		}
+	}
 	return nil
 }
 
-func c15InprocRow(i, ns int, msg []byte) c15Entry {
-	s := i % ns
+func c15InprocRow(i, ns int, msg []byte) c15Entry { return c15InprocRowB(i, ns, 1, msg) }
+
+// c15InprocRowB: rows come in bursts of `burst` consecutive rows of one stream (burst 1 = interleaved line by line). A
+// burst as long as a reader batch makes whole batches single-stream, after which the stream re-appears (seeded C15-6)
+func c15InprocRowB(i, ns, burst int, msg []byte) c15Entry {
+	s := (i / burst) % ns
 	return c15Entry{Kind: 'n', Fp: uint64(s + 1), Labels: []c15KV{{[]byte("series"), []byte("s" + strconv.Itoa(s))}}, Ts: int64(1700000000000000000 + i), Msg: msg}
 }
 
 // row i belongs to stream i mod ns
 func c15InprocCase(r *h.Result, env *c15Env, rows []c15Entry, ns int, limit int64, consts []int) error {
+	return c15InprocCaseB(r, env, rows, ns, limit, consts, 1)
+}
+
+func c15InprocCaseB(r *h.Result, env *c15Env, rows []c15Entry, ns int, limit int64, consts []int, burst int) error {
 	n := len(rows)
 	env.setRows([]string{"fingerprint", "labels", "string", "timestamp_ns"}, c15SQLRows(rows))
 	objKey := "C15/inproc/series-objects"
@@ -1272,12 +1295,12 @@ func c15InprocCase(r *h.Result, env *c15Env, rows []c15Entry, ns int, limit int6
 		return err
 	}
 	body := []byte(strings.Join(c15Collect(ch), ""))
-	rep := c15Replay{Stream: "sizes", Kind: "inproc", Batches: c15Words([][]c15Entry{rows}), Body: h.Hex(body), Rows: fmt.Sprintf("n=%d ns=%d limit=%d", n, ns, limit),
-		Note: fmt.Sprintf("%d rows of %d streams interleaved by time through `| line_format`, limit %d", n, ns, limit)}
+	rep := c15Replay{Stream: "sizes", Kind: "inproc", Batches: c15Words([][]c15Entry{rows}), Body: h.Hex(body), Rows: fmt.Sprintf("n=%d ns=%d limit=%d burst=%d", n, ns, limit, burst),
+		Note: fmt.Sprintf("%d rows of %d streams (bursts of %d rows per stream) ordered by time through `| line_format`, limit %d", n, ns, burst, limit)}
 	if n > 400 {
 		rep.Batches, rep.Body = "", "" // regenerated from n: row i belongs to stream i mod ns, line m<i>
 	}
-	r.Case(fmt.Sprintf("sizes:inproc:%d:%d:%d", n, ns, limit), n >= 2)
+	r.Case(fmt.Sprintf("sizes:inproc:%d:%d:%d:%d", n, ns, limit, burst), n >= 2)
 	r.Count("sizes:inproc")
 	if limit == 0 {
 		r.Count("sizes:inproc-unlimited")
@@ -1323,7 +1346,7 @@ func c15InprocCase(r *h.Result, env *c15Env, rows []c15Entry, ns int, limit int6
 		return nil
 	}
 	for i, e := range rows {
-		k := "s" + strconv.Itoa(i%ns)
+		k := string(e.Labels[0].V)
 		if len(perStream[k]) == 0 || !bytes.Equal(perStream[k][0], e.Msg) {
 			r.Violate("C15/inproc/line", fmt.Sprintf("row %d (%q) is not the next value of its stream", i, e.Msg), rep)
 			break
@@ -1416,8 +1439,15 @@ func c15ReplayList(r *h.Result, rep c15Replay) error {
 	if rep.Kind == "inproc" {
 		var n, ns int
 		var limit int64
-		if s, ok := rep.Rows.(string); !ok || func() bool { k, _ := fmt.Sscanf(s, "n=%d ns=%d limit=%d", &n, &ns, &limit); return k != 3 }() {
+		burst := 1
+		if s, ok := rep.Rows.(string); !ok || func() bool {
+			k, _ := fmt.Sscanf(s, "n=%d ns=%d limit=%d burst=%d", &n, &ns, &limit, &burst)
+			return k < 3
+		}() {
 			return fmt.Errorf("inproc replay without n/ns/limit")
+		}
+		if burst < 1 {
+			burst = 1
 		}
 		var erows []c15Entry
 		if rep.Batches != "" {
@@ -1428,10 +1458,10 @@ func c15ReplayList(r *h.Result, rep c15Replay) error {
 			erows = bs[0]
 		} else {
 			for i := 0; i < n; i++ {
-				erows = append(erows, c15InprocRow(i, ns, []byte("m"+strconv.Itoa(i))))
+				erows = append(erows, c15InprocRowB(i, ns, burst, []byte("m"+strconv.Itoa(i))))
 			}
 		}
-		return c15InprocCase(r, newC15Env(), erows, ns, limit, consts)
+		return c15InprocCaseB(r, newC15Env(), erows, ns, limit, consts, burst)
 	}
 	le := newC15ListEnv(newC15Env())
 	var bs []int
